@@ -35,8 +35,6 @@ RULE = (
 ASSUMPTIONS = [
     "one value family per swept argument (mixed str/number coordinates are "
     "coerced to strings by xarray itself)",
-    "aligned-tuple var_dims is only generated when every variable has at "
-    "least one internal dimension",
 ]
 
 VAR_NAMES = ["out", "E", "sz", "res_", "v2"]
@@ -283,7 +281,8 @@ def runner_desc(draw, to_df=False, allow_xobj=True):
     ret = draw(st.sampled_from(rets))
     xobj = ret in ("dataset", "dataarray", "dict")
     spellings = ["dict", "dict_tuple_keys"]
-    if all(d for _, d in vars_):
+    if any(d for _, d in vars_):
+        # one entry per variable, () for a scalar one
         spellings.append("aligned_tuple")
         if nvars == 1 and len(vars_[0][1]) == 1:
             spellings.append("bare_str")
